@@ -122,7 +122,7 @@ def eD (m i j : Nat) : E := (if i = 0 then eA w i j else 0) + (if i = m then eB 
 
 theorem eK_add_eD (m i j : Nat) : eK w m i j + eD w m i j = eA w i j + eB w i j := by
   unfold eK eD
-  split_ifs <;> simp <;> abel
+  split_ifs <;> first | (simp; done) | (simp; abel)
 
 theorem sum_eD (m j : Nat) :
     ∑ i ∈ Finset.range (m + 1), eD w m i j = eA w 0 j + eB w m j := by
@@ -181,6 +181,7 @@ theorem em_surface (m slices : Nat) :
 /-- **main theorem** -/
 theorem revolve_closed (per slices : Nat) (hper : 3 ≤ per) (hs : 3 ≤ slices) :
     Closed (revolveSurface per slices) := by
+  have _ := hs
   obtain ⟨m, rfl⟩ : ∃ m, per = m + 2 := ⟨per - 2, by omega⟩
   rw [closed_iff, em_surface]
   symm
@@ -201,8 +202,105 @@ theorem revolve_closed (per slices : Nat) (hper : 3 ≤ per) (hs : 3 ≤ slices)
     `2*i + 1` for `i = per - 2`, and both triangles of the wrap-around quad `i = per - 1` -/
 def axisKeep (per : Nat) (k : Nat) : Bool := !(k = 0 || k = 2 * (per - 2) + 1 || k = 2 * (per - 1) || k = 2 * (per - 1) + 1)
 
+theorem flatMap_congr' {α β : Type} {l : List α} {f g : α → List β} (h : ∀ x ∈ l, f x = g x) :
+    l.flatMap f = l.flatMap g := by
+  induction l with
+  | nil => rfl
+  | cons a l ih =>
+    rw [List.flatMap_cons, List.flatMap_cons, h a (by simp), ih (fun x hx => h x (by simp [hx]))]
+
+theorem length_flatMap2 {α : Type} (n : Nat) (a b : Nat → α) :
+    ((List.range n).flatMap (fun i => [a i, b i])).length = 2 * n := by
+  induction n with
+  | zero => rfl
+  | succ n ih =>
+    rw [List.range_succ, List.flatMap_append, List.length_append, ih]
+    simp
+    omega
+
+theorem zipIdx_flatMap2 {α : Type} (n : Nat) (a b : Nat → α) :
+    ((List.range n).flatMap (fun i => [a i, b i])).zipIdx
+      = (List.range n).flatMap (fun i => [(a i, 2 * i), (b i, 2 * i + 1)]) := by
+  induction n with
+  | zero => rfl
+  | succ n ih =>
+    rw [List.range_succ, List.flatMap_append, List.flatMap_append, List.zipIdx_append, ih,
+      length_flatMap2]
+    simp
+
+theorem single_axisKeep (m : Nat) :
+    TV.Creation.single (m + 2) (axisKeep (m + 2))
+      = (List.range (m + 1)).flatMap (fun i =>
+          (if i = 0 then [] else [(i, m + 2 + i, i + 1)]) ++
+          (if i = m then [] else [(i + 1, m + 2 + i, m + 2 + i + 1)])) := by
+  unfold TV.Creation.single
+  rw [zipIdx_flatMap2, List.filterMap_flatMap, List.range_succ (n := m + 1), List.flatMap_append]
+  have hlast : ([m + 1].flatMap fun i =>
+      List.filterMap (fun fi : Face × Nat => if axisKeep (m + 2) fi.2 = true then some fi.1 else none)
+        [((i, m + 2 + i, i + 1), 2 * i), ((i + 1, m + 2 + i, m + 2 + i + 1), 2 * i + 1)]) = [] := by
+    simp [axisKeep]
+  rw [hlast, List.append_nil]
+  apply flatMap_congr'
+  intro i hi
+  have hi' : i < m + 1 := List.mem_range.mp hi
+  have k0 : axisKeep (m + 2) (2 * i) = true ↔ i ≠ 0 := by
+    simp [axisKeep]; omega
+  have k1 : axisKeep (m + 2) (2 * i + 1) = true ↔ i ≠ m := by
+    simp [axisKeep]; omega
+  simp only [List.filterMap_cons, List.filterMap_nil, k0, k1]
+  split_ifs <;> first | rfl | (exfalso; omega)
+
+theorem shift_mod (per slices i j : Nat) (hj : j < slices) (hi : i < per) :
+    (i + j * per) % (per * slices) = vid per slices i j := by
+  unfold vid
+  have hb : (j + 1) * per ≤ slices * per := Nat.mul_le_mul_right per hj
+  rw [Nat.add_mul, Nat.one_mul] at hb
+  rw [Nat.mod_eq_of_lt hj, Nat.mod_eq_of_lt (by rw [Nat.mul_comm per slices]; omega)]
+  omega
+
+theorem shift_mod' (per slices i j : Nat) (hj : j < slices) (hi : i < per) :
+    (per + i + j * per) % (per * slices) = vid per slices i (j + 1) := by
+  unfold vid
+  by_cases h : j + 1 < slices
+  · have hb : (j + 1 + 1) * per ≤ slices * per := Nat.mul_le_mul_right per h
+    rw [Nat.add_mul, Nat.add_mul, Nat.one_mul] at hb
+    rw [Nat.mod_eq_of_lt h, Nat.mod_eq_of_lt (by rw [Nat.mul_comm per slices]; omega),
+      Nat.add_mul, Nat.one_mul]
+    omega
+  · obtain rfl : slices = j + 1 := by omega
+    have e : per + i + j * per = i + per * (j + 1) := by
+      rw [Nat.mul_add, Nat.mul_one, Nat.mul_comm per j]; omega
+    have hb : per * 1 ≤ per * (j + 1) := Nat.mul_le_mul_left per (by omega)
+    rw [e, Nat.add_mod_right, Nat.mod_self, Nat.zero_mul, Nat.zero_add,
+      Nat.mod_eq_of_lt (by omega)]
+
 theorem grid_eq_revolveFaces (per slices : Nat) (hper : 3 ≤ per) (hs : 1 ≤ slices) :
     gridFaces per slices = TV.Creation.revolveFaces per slices (per * slices) (axisKeep per) := by
-  sorry
+  have _ := hs
+  obtain ⟨m, rfl⟩ : ∃ m, per = m + 2 := ⟨per - 2, by omega⟩
+  unfold gridFaces TV.Creation.revolveFaces
+  apply flatMap_congr'
+  intro j hj
+  have hj' : j < slices := List.mem_range.mp hj
+  rw [single_axisKeep, List.map_flatMap]
+  unfold sliceFaces
+  show (List.range (m + 1)).flatMap _ = _
+  apply flatMap_congr'
+  intro i hi
+  have hi' : i < m + 1 := List.mem_range.mp hi
+  have a1 := shift_mod (m + 2) slices i j hj' (by omega)
+  have a2 := shift_mod (m + 2) slices (i + 1) j hj' (by omega)
+  have b1 := shift_mod' (m + 2) slices i j hj' (by omega)
+  have b2 := shift_mod' (m + 2) slices (i + 1) j hj' (by omega)
+  rw [← Nat.add_assoc] at b2
+  show _ ++ (if i = m then _ else _) = _
+  rw [List.map_append]
+  congr 1
+  · split_ifs
+    · rfl
+    · simp only [List.map_cons, List.map_nil, a1, a2, b1]
+  · split_ifs
+    · rfl
+    · simp only [List.map_cons, List.map_nil, a2, b1, b2]
 
 end TV.RevolveGrid
